@@ -273,13 +273,14 @@ def d4(chk, prog):
                  "v": Vec([r[3] for r in rows], aligned=True)}, len(rows), "any")
         df.exact, df.labels = True, list(labels)
         return df
-    src_full = [("a", 0, 10, "s0"), ("a", 10, 20, "s1"), ("a", 12, 15, "s2"), ("a", 30, 40, "s3"), ("c", 0, 5, "s4")]
-    dests = {"two hits / one hit / none / other chromosome": [("a", 5, 14, 0), ("a", 35, 36, 0), ("a", 20, 30, 0), ("b", 0, 100, 0), ("c", 0, 1, 0)],
+    # (two source rows carry the same value: the summary still sees both -- a sum or a count is not idempotent)
+    src_full = [("a", 0, 10, "s0"), ("a", 10, 20, "dup"), ("a", 12, 15, "dup"), ("a", 30, 40, "s3"), ("c", 0, 5, "s4")]
+    dests = {"three hits / two equal hits / one hit / none / other chromosome": [("a", 5, 14, 0), ("a", 11, 16, 0), ("a", 35, 36, 0), ("a", 20, 30, 0), ("b", 0, 100, 0), ("c", 0, 1, 0)],
              "single destination row": [("a", 0, 100, 0)], "empty destination": []}
     for (dlabel, drows), (slabel, srows), summ in itertools.product(dests.items(), (("five source rows", src_full), ("empty source", [])), ("given function", "none given")):
         W.reset()
         it = Interp(prog)
-        dl = [7, 3, 11, 2, 5][:len(drows)]
+        dl = [7, 3, 11, 2, 5, 13][:len(drows)]
         dest = mkt(drows, dl)
         src = mkt(srows, [20 + i for i in range(len(srows))])
         # (no summary function given: chosen from the first element's type -- a string column is comma-joined; an empty source has no first element)
@@ -299,8 +300,8 @@ def d4(chk, prog):
     for col in ("v", "absent"):
         W.reset()
         it = Interp(prog)
-        drows = dests["two hits / one hit / none / other chromosome"]
-        dl = [7, 3, 11, 2, 5]
+        drows = dests["three hits / two equal hits / one hit / none / other chromosome"]
+        dl = [7, 3, 11, 2, 5, 13]
         dga, sga = GA("GenomicArray", mkt(drows, dl), len(drows), {}), GA("GenomicArray", mkt(src_full, [20 + i for i in range(len(src_full))]), len(src_full), {})
         out = tbk.guard(lambda: it.run_method(sga, "into_ranges", [dga, col, "DEFAULT", (lambda ser: ("SUMMARY",) + tuple(ser.v))]), f"method, column {col}")
         if out is None:
